@@ -48,6 +48,9 @@ type Sub struct {
 	M      json.RawMessage `json:"m"`
 	Rules  []Rule          `json:"rules"`
 	Trunc  []int           `json:"trunc"`
+	// Zero (format 2 only): glyph sets which are to be encoded as class 0 of the backtrack /
+	// input / lookahead class definition, i.e. by leaving their glyphs out of it
+	Zero map[string][]int `json:"zero"`
 	Back   [][]int         `json:"back"`
 	Ahead  [][]int         `json:"ahead"`
 	First  []int           `json:"first"`
@@ -158,12 +161,33 @@ func acts(as []Act) []gtab.SeqLookup {
 type classer struct {
 	keys []string
 	def  classdef.Table
+	zero string // key of the set which is class 0
+}
+
+func (c *classer) setZero(s []int) {
+	if s == nil {
+		return
+	}
+	ys := append([]int(nil), s...)
+	sort.Ints(ys)
+	c.zero = fmt.Sprint(ys)
 }
 
 func (c *classer) class(s []int) (uint16, error) {
 	ys := append([]int(nil), s...)
 	sort.Ints(ys)
 	key := fmt.Sprint(ys)
+	if c.zero != "" && key == c.zero {
+		if c.def == nil {
+			c.def = classdef.Table{}
+		}
+		for _, g := range ys {
+			if _, ok := c.def[glyph.ID(g)]; ok {
+				return 0, fmt.Errorf("class-0 set overlaps another class: %v", ys)
+			}
+		}
+		return 0, nil
+	}
 	for i, k := range c.keys {
 		if k == key {
 			return uint16(i + 1), nil
@@ -261,6 +285,9 @@ func buildCtx(st *Sub) ([]gtab.Subtable, error) {
 		return []gtab.Subtable{c}, nil
 	case 2:
 		var cin, cback, cahead classer
+		cin.setZero(st.Zero["in"])
+		cback.setZero(st.Zero["back"])
+		cahead.setZero(st.Zero["ahead"])
 		var firsts []int
 		type crule struct {
 			first            uint16
